@@ -48,7 +48,7 @@ func (s *Session) publish(span *model.SpanContext, topic string, payload []byte,
   ensures an-online-qos1-message-is-written: qos == 1 && gOnline ==> gWroteID >= 0
   ghost at entry: published := store(published, ref(s), true)
   ghost at entry: gWroteID := -1
-  ghost at call[1] getClient: gOnline := c != nil
+  ghost at call[1] getClient: gOnline := gc != nil
   ghost at call[1] writePacket: gWroteID := p.MessageID
   ghost at call[1] writePacket: gWrotePending := (p.MessageID in s.pending)
   ghost at call[1] writePacket: s.qpos[p.MessageID] := s.qbase + len(s.pendingQueue) - 1
@@ -155,10 +155,10 @@ func (b *Broker) removeClient(clientID string)
   ensures only-a-disconnected-registration-is-removed: forall c string :: (c in b.clients) <==> (old(c in b.clients) && !(c == clientID && old(b.clients[clientID].statusFlag) == Disconnected))
   ensures survivors-unchanged: forall c string :: c in b.clients ==> b.clients[c] == old(b.clients[c])
 
-func (b *Broker) getClient(clientID string) (c *Client)
+func (b *Broker) getClient(clientID string) (gc *Client)
   requires b != nil
-  ensures c != nil ==> (clientID in b.clients) && c == b.clients[clientID]
-  ensures c == nil ==> !(clientID in b.clients)
+  ensures gc != nil ==> (clientID in b.clients) && gc == b.clients[clientID]
+  ensures gc == nil ==> !(clientID in b.clients)
 
 ghost var gCur int
 ghost var unsubCount int
@@ -207,7 +207,7 @@ func (c *Client) closeAndDelSession()
   requires c != nil && c.broker != nil && c.broker.sessMgr != nil && c.broker.topicMgr != nil && c.session != nil && c.session.info != nil
   modifies trieSub, sessOf, closedSess, unsubCount, gCur
   ensures teardown-of-a-superseded-connection-touches-nothing-of-the-successor: gCur != 0 && gCur != ref(c) ==> sessOf == old(sessOf) && closedSess == old(closedSess) && unsubCount == old(unsubCount)
-  ghost at call[1] getClient: gCur := ref(c)
+  ghost at call[1] getClient: gCur := ref(gc)
 
 // ---- handleConn: the locked region keeps the cap (checked at both Unlock sites) ----
 func (b *Broker) connectionValidation(connect *packets.ConnectPacket, conn net.Conn) (client *Client, connack *packets.ConnackPacket, valid bool)
